@@ -157,6 +157,59 @@ Ends(G, w) ==
       rank == [n \in NodesOf(G) |-> Cardinality(R[n] \ {n})]
   IN PosLoop(G, w, [n \in NodesOf(G) |-> [p \in 0..Len(w) |-> {}]], rank, Len(w))
 
+\* ---- the SET of derivation trees (same stratified fixpoint, tree-valued) --------------------------------------
+\* trees in the harness' rendering, global positions (B + cursor):
+\*   <<"T", s, e, token>>  <<"E", p, p>>  <<"EOF", p, p>>  <<"N", s, e, token, <<children>>>>
+\* Any, Optional, Memoize and names add no node: only the Seq family builds non-terminals.  The set is finite unless a
+\* Seq node lies on a cycle that consumes nothing; the iteration is capped and reports non-convergence.
+ChrOf(c) == IF c = 97 THEN "a" ELSE IF c = 98 THEN "b" ELSE IF c = 99 THEN "c" ELSE IF c = 100 THEN "d"
+            ELSE IF c = 120 THEN "x" ELSE IF c = 121 THEN "y" ELSE IF c = 10 THEN "\n" ELSE IF c = 32 THEN " " ELSE "?"
+TokOf(mode) == IF mode \in {"many", "many1"} THEN "MANY" ELSE IF mode \in {"sepby", "sepby1"} THEN "SEP_BY" ELSE "SEQ"
+MkN(B, tok, acc, p) == IF acc = <<>> THEN <<"N", B + p, B + p, tok, <<>>>> ELSE <<"N", acc[1][2], acc[Len(acc)][3], tok, acc>>
+
+RECURSIVE WalkT(_, _, _, _, _, _, _, _)
+WalkT(G, B, TT, n, d, q, acc, p) ==      \* trees of the maximal paths of Seq node n from depth d at cursor q
+  LET el == Elem(G, n, d) IN
+  IF el # 0 /\ TT[el][q] # {} THEN UNION {WalkT(G, B, TT, n, d + 1, t[3] - B, Append(acc, t), p) : t \in TT[el][q]}
+  ELSE IF LenOK(G, n, d) THEN {MkN(B, TokOf(G[n].mode), acc, p)} ELSE {}
+
+RECURSIVE FirstNonEmptyT(_, _, _, _)
+FirstNonEmptyT(TT, kids, i, p) ==
+  IF i > Len(kids) THEN {} ELSE IF TT[kids[i]][p] # {} THEN TT[kids[i]][p] ELSE FirstNonEmptyT(TT, kids, i + 1, p)
+
+EvalTreesAt(G, w, B, TT, n, p) ==
+  LET g == G[n] IN
+  CASE g.k = "term" -> IF p < Len(w) /\ w[p + 1] = g.ch THEN {<<"T", B + p, B + p + 1, ChrOf(g.ch)>>} ELSE {}
+    [] g.k = "end" -> IF p >= Len(w) THEN {<<"EOF", B + p, B + p>>} ELSE {}
+    [] g.k = "empty" -> {<<"E", B + p, B + p>>}
+    [] g.k = "opt" -> TT[g.kids[1]][p] \cup {<<"E", B + p, B + p>>}
+    [] g.k = "any" -> UNION {TT[g.kids[i]][p] : i \in 1..Len(g.kids)}
+    [] g.k = "choice" -> FirstNonEmptyT(TT, g.kids, 1, p)
+    [] g.k \in {"memo", "named", "pass"} -> TT[g.kids[1]][p]
+    [] g.k = "seq" -> WalkT(G, B, TT, n, 0, p, <<>>, p)
+
+\* iterate the nodes ns at cursor p; <<TT, converged>>
+RECURSIVE KleeneT(_, _, _, _, _, _, _)
+KleeneT(G, w, B, TT, ns, p, fuel) ==
+  LET T2 == [n \in NodesOf(G) |-> IF n \in ns THEN [TT[n] EXCEPT ![p] = EvalTreesAt(G, w, B, TT, n, p)] ELSE TT[n]]
+  IN IF T2 = TT THEN <<TT, TRUE>> ELSE IF fuel = 0 THEN <<TT, FALSE>> ELSE KleeneT(G, w, B, T2, ns, p, fuel - 1)
+RECURSIVE RankLoopT(_, _, _, _, _, _, _)
+RankLoopT(G, w, B, TT, rank, r, p) ==
+  IF r > Len(G) THEN <<TT, TRUE>>
+  ELSE LET k == KleeneT(G, w, B, TT, {n \in NodesOf(G) : rank[n] = r}, p, Len(w) + Len(G) + 2)
+       IN IF ~k[2] THEN <<TT, FALSE>> ELSE RankLoopT(G, w, B, k[1], rank, r + 1, p)
+RECURSIVE PosLoopT(_, _, _, _, _, _)
+PosLoopT(G, w, B, TT, rank, p) ==
+  IF p < 0 THEN <<TT, TRUE>>
+  ELSE LET k == RankLoopT(G, w, B, TT, rank, 0, p) IN IF ~k[2] THEN <<TT, FALSE>> ELSE PosLoopT(G, w, B, k[1], rank, p - 1)
+\* <<trees function, converged>>; when not converged the grammar has (practically) infinitely many trees: only end
+\* positions and ValidTree are judged
+TreeSets(G, w, B) ==
+  LET nu == Nullable(G)
+      R == Reach(G, nu)
+      rank == [n \in NodesOf(G) |-> Cardinality(R[n] \ {n})]
+  IN PosLoopT(G, w, B, [n \in NodesOf(G) |-> [p \in 0..Len(w) |-> {}]], rank, Len(w))
+
 \* ---- soundness of a returned TREE ---------------------------------------------------
 \* trees as the harness renders them (global positions, B = base offset of the file):
 \*   <<"T", s, e, token>>  <<"E", p, p>>  <<"EOF", p, p>>  <<"N", s, e, token, <<children>>>>
